@@ -1,154 +1,280 @@
-(* C18/Properties.v — the property theorems only.  Each is closed by [exact] of a lemma from
-   Proofs.v (or by vm_compute for a concrete witness) and followed by Print Assumptions.
+(* C18/Properties.v — the property theorems only.  Each is closed by [exact] of a lemma from Proofs.v (or by
+   vm_compute for a concrete witness) and followed by Print Assumptions.
 
-   [repaired] = the model with both proposed fixes; [defective] = the code as it is today.
-   Theorems stated for an arbitrary variant [v] hold for both. *)
+   Variants (Model.v): [repaired] = all four repairs (mode bits, current-manifest restore, ForceRetry keeps the
+   interrupted upgrade's snapshot, Rollback refuses a journal at "started"); [head1] = /repo at 88f69f7+f4d379f
+   (first two only); [defective] = none.  Reachable state = [exec repaired (init_world c f) ops] for an arbitrary
+   installed tree f (symlinks, directories, anything), version c and history ops (applies with any tarball,
+   options incl. ForceRetry, fault set and crash label; rollbacks; operator edits; obstacle removal).
+
+   The BASELINE of the monitors is the ghost [g_base] = (artifact paths with their pre-upgrade state, version).
+   It is written by one rule about the observable journal: when an admitted apply starts while the journal is
+   NOT an interrupted upgrade ([resume w = false]: no journal, completed, rolled back, or stopped at "started"
+   before anything was modified) it becomes the tree of that moment; nothing else moves it
+   (C18_baseline_moves_only_at_fresh_start).  A ForceRetry over an interrupted upgrade does not. *)
 From OV Require Import Common.Base C18.Model C18.Proofs.
 Local Open Scope N_scope.
 
+Notation reach c f ops := (exec repaired (init_world c f) ops).
+
 (* --- all-or-nothing -------------------------------------------------------------------- *)
-(* An apply that reports success has every artifact at the new content and mode, the journal
-   at "completed" and current-manifest at the new version — whatever faults were injected. *)
+(* An apply that reports success has every artifact at the new content and mode, the journal at "completed"
+   and current-manifest at the new version — whatever faults were injected. *)
 Theorem C18_no_mixed_success :
-  forall v T Q F w w', apply v T Q F w = (w', ROk) ->
+  forall c f ops T Q F w', apply repaired T Q F (reach c f ops) = (w', ROk) ->
   (forall a, In a (t_arts T) -> exists mm, new_mode (a_mode a) = Some mm /\
                                   fs w' (a_path a) = Some (Reg (a_content a) mm)) /\
   cur w' = t_to T /\ option_map j_phase (jr w') = Some PCompleted.
-Proof. exact no_mixed_success. Qed.
+Proof. exact (fun c f ops T Q F w' => no_mixed_success repaired T Q F _ w' eq_refl (proj1 (reachable_IJ c f ops))). Qed.
 Print Assumptions C18_no_mixed_success.
 
-(* An apply that reports "failed, auto-rollback succeeded" leaves every artifact path exactly
-   (kind, bytes, mode) as before the apply: for every command failure, swap failure at any
-   index, health outcome. *)
+(* An apply that reports "failed, auto-rollback succeeded" leaves every baseline path exactly (kind, bytes,
+   mode) as in the baseline: the tree before this apply, or — ForceRetry over an interrupted upgrade — the tree
+   before that upgrade's first attempt. *)
 Theorem C18_failed_apply_restored :
-  forall T Q F w w', apply repaired T Q F w = (w', RErrRolledBack) ->
-  forall a, In a (t_arts T) -> fs w' (a_path a) = fs w (a_path a).
-Proof. exact (fun T Q F w w' => failed_apply_restored repaired T Q F w w' eq_refl). Qed.
+  forall c f ops T Q F w', apply repaired T Q F (reach c f ops) = (w', RErrRolledBack) ->
+  forall p f0, In (p, f0) (fst (baseline_of (reach c f ops) T)) -> fs w' p = f0.
+Proof. exact (fun c f ops T Q F w' => failed_apply_restored repaired T Q F _ w' fixedv_repaired (proj1 (reachable_IJ c f ops))). Qed.
 Print Assumptions C18_failed_apply_restored.
 
-(* An apply that returns a plain error (refusal, snapshot / hook / suspend / stop failure)
-   has not touched any artifact nor current-manifest. *)
+(* on a box that is not mid-upgrade the baseline is the tree right before the apply *)
+Theorem C18_baseline_of_fresh_apply :
+  forall w T, resume w = false -> fst (baseline_of w T) = base_of w (t_arts T).
+Proof. exact baseline_fresh. Qed.
+Print Assumptions C18_baseline_of_fresh_apply.
+
+(* An apply that returns a plain error (refusal, snapshot / hook / suspend / stop failure, ForceRetry with
+   artifacts the kept snapshot does not cover) has not touched any artifact nor current-manifest. *)
 Theorem C18_early_error_untouched :
-  forall v T Q F w w', apply v T Q F w = (w', RErr) -> fs w' = fs w /\ cur w' = cur w.
-Proof. exact early_error_untouched. Qed.
+  forall c f ops T Q F w', apply repaired T Q F (reach c f ops) = (w', RErr) ->
+  fs w' = fs (reach c f ops) /\ cur w' = cur (reach c f ops).
+Proof. exact (fun c f ops T Q F w' => early_error_untouched repaired T Q F _ w' eq_refl (proj1 (reachable_IJ c f ops))). Qed.
 Print Assumptions C18_early_error_untouched.
 
-(* --- always restorable ----------------------------------------------------------------- *)
-(* Whatever happened in an admitted apply once its snapshot completed (g_base = Some (true, ..)):
-   any failure set, the process dying at any labelled point, a failed auto-rollback — after any
-   sequence of further rollback attempts (each with its own failures / crash / obstacles) and
-   obstacle removals, every rollback that reports success leaves every artifact of the tarball
-   identical to what was installed before the apply. *)
-Theorem C18_rollback_restores :
-  forall T Q F w w1 r1 b gi,
-  apply repaired T Q F w = (w1, r1) -> admits T Q w = true ->
-  g_base w1 = Some (true, b, gi) ->
-  forall ops, rb_only ops ->
-  forall w' r m, In (w', (r, m)) (run repaired w1 ops) -> r = RRbOk ->
-  forall a, In a (t_arts T) -> fs w' (a_path a) = fs w (a_path a).
-Proof. exact (fun T Q F w w1 r1 b gi => crash_then_rollback_restores repaired T Q F w w1 r1 b gi eq_refl). Qed.
-Print Assumptions C18_rollback_restores.
-
-(* Over whole histories (applies, rollbacks, operator edits, obstacle removal, ForceRetry) from any
-   installed tree: no operation that reports success — upgrade, auto-rollback or rollback — leaves
-   a mixture; [mon] compares with the all-new tree resp. the tree recorded when the last snapshot
-   completed. *)
+(* --- no mixture is ever reported as success; restorable --------------------------------- *)
+(* Over whole histories: no operation that reports success — upgrade, auto-rollback, rollback — leaves a
+   mixture: [m] compares the tree with the all-new tree resp. with the baseline (never "na" once an upgrade
+   has started: a rollback that reports success always found a completed snapshot of the baseline). *)
 Theorem C18_monitor_never_mixed :
   forall c f ops w' r m, In (w', (r, m)) (run repaired (init_world c f) ops) -> m <> MonMixed.
 Proof. exact monitor_never_mixed. Qed.
 Print Assumptions C18_monitor_never_mixed.
 
+(* same, plus: current-manifest names the tarball's version after ok, the baseline's version after a reported
+   (auto-)rollback *)
+Theorem C18_reported_success_is_consistent :
+  forall c f ops o w' r m,
+  step repaired (reach c f ops) o = (w', (r, m)) -> m <> MonMixed /\ step_ver o w' r <> MonMixed.
+Proof. exact reachable_consistent. Qed.
+Print Assumptions C18_reported_success_is_consistent.
+
+(* and, unless the operator edited something since the baseline was taken, every baseline path RESOLVES
+   (bytes read through symlinks) to what it resolved to then: the whole tree is back, not just lstat data *)
+Theorem C18_reported_rollback_resolves_as_before :
+  forall c f ops o w' r m,
+  step repaired (reach c f ops) o = (w', (r, m)) -> step_res o w' r <> MonMixed.
+Proof. exact reachable_resolved. Qed.
+Print Assumptions C18_reported_rollback_resolves_as_before.
+
+(* The baseline is not rebased by the flow: one step either leaves it alone or is an admitted apply on a box
+   that is not mid-upgrade, which makes it (tree, version) of that moment. *)
+Theorem C18_baseline_moves_only_at_fresh_start :
+  forall c f ops o, let w := reach c f ops in
+  base_part (fst (step repaired w o)) = base_part w \/
+  (exists T Q F, o = OpApply T Q F /\ resume w = false /\ admits T Q w = true /\
+                 base_part (fst (step repaired w o)) = Some (base_of w (t_arts T), cur w)).
+Proof. exact (fun c f ops o => step_baseline repaired _ o fixedv_repaired (proj1 (reachable_IJ c f ops))). Qed.
+Print Assumptions C18_baseline_moves_only_at_fresh_start.
+
+(* "can be rolled back": in every reachable state in which the baseline's snapshot completed (any failures,
+   deaths, failed rollbacks, ForceRetry attempts since), after the obstacles are removed a rollback without
+   further faults DOES report success, restores every baseline path and current-manifest.  (No directory may sit
+   on a baseline path: only an operator edit can put one there.) *)
+Theorem C18_rollback_can_succeed :
+  forall c f ops F base gi, let w := reach c f ops in
+  g_base w = Some (true, base, gi) -> quiet F ->
+  (forall p f0, In (p, f0) base -> fs w p <> Some Dir) ->
+  exists w' m, step repaired (fst (step repaired w OpClear)) (OpRollback F) = (w', (RRbOk, m)) /\
+               (forall p f0, In (p, f0) base -> fs w' p = f0) /\ cur w' = gi /\ m = MonOk.
+Proof. exact reachable_rollback_succeeds. Qed.
+Print Assumptions C18_rollback_can_succeed.
+
 (* --- admission before mutation --------------------------------------------------------- *)
-(* bad signature, digest mismatch, unsafe / non-regular member or unparsable manifest, malformed
-   or wrong predecessor: nothing at all changes (artifacts, journal, snapshots, current-manifest) *)
+(* bad signature, digest mismatch, unsafe / non-regular member or unparsable manifest, malformed or wrong
+   predecessor: the model world is unchanged (artifacts, journal, snapshots, current-manifest; the staging
+   directory, quarantine copy and state directories the Go code creates are outside the world). *)
 Theorem C18_admission_before_mutation :
   forall v T Q F w, inadmissible T w -> apply v T Q F w = (w, RErr).
 Proof. exact admission_before_mutation. Qed.
 Print Assumptions C18_admission_before_mutation.
 
-(* --- what the code does today ---------------------------------------------------------- *)
+(* Ghost [g_inst] = version the installed artifacts belong to: tarball version at the commit step, baseline
+   version when a restore completes.  current-manifest names it in every reachable state ... *)
+Theorem C18_current_manifest_names_installed_version :
+  forall c f ops, let w := reach c f ops in cur w = g_inst w.
+Proof. exact reachable_version. Qed.
+Print Assumptions C18_current_manifest_names_installed_version.
+
+(* ... hence a tarball whose declared predecessor is not the installed version changes nothing *)
+Theorem C18_wrong_predecessor_never_modifies :
+  forall c f ops T Q F pv wf, let w := reach c f ops in
+  t_prev T = Prev pv wf -> pv <> g_inst w -> apply repaired T Q F w = (w, RErr).
+Proof. exact wrong_predecessor_never_modifies. Qed.
+Print Assumptions C18_wrong_predecessor_never_modifies.
+
+(* a member name accepted by safeTarEntryPath has no ".." component left after the lexical Clean *)
+Theorem C18_safe_entry :
+  forall name cl, safe_entry name = Some cl -> forall c, In c cl -> is_dotdot c = false.
+Proof. exact safe_entry_no_dotdot. Qed.
+Print Assumptions C18_safe_entry.
+
+(* --- witnesses -------------------------------------------------------------------------- *)
 Definition fs_ex : path -> option file :=
   fun p => if N.eqb p 0 then Some (Reg 10 2541) (* 04755 *) else if N.eqb p 1 then Some (Reg 11 420) else None.
 Definition arts_ex : list artifact :=
   [ {| a_path := 0; a_content := 20; a_mode := MOk 493; a_vpp := false |};
-    {| a_path := 1; a_content := 21; a_mode := MEmpty; a_vpp := true |} ]%N.
+    {| a_path := 1; a_content := 21; a_mode := MEmpty; a_vpp := true |} ].
 Definition tar_ex (to : ver) (prev : prevspec) : tarball :=
   {| t_to := to; t_prev := prev; t_sig_ok := true; t_members_ok := true; t_digest_ok := true;
      t_hook_ok := true; t_arts := arts_ex |}.
 Definition no_opts : opts := {| o_expect := None; o_force := false |}.
+Definition force : opts := {| o_expect := None; o_force := true |}.
 Definition no_faults : faults :=
   {| f_fail := []; f_crash := None; f_ha := true; f_hr := true; f_ob := []; f_rob := [] |}.
 Definition health_fails : faults :=
   {| f_fail := []; f_crash := None; f_ha := false; f_hr := true; f_ob := []; f_rob := [] |}.
 Definition dies_mid_swap : faults :=    (* swap of artifact #1 fails, process dies before the auto-rollback *)
-  {| f_fail := []; f_crash := Some 51%N; f_ha := true; f_hr := true; f_ob := [(1%N, false)]; f_rob := [] |}.
+  {| f_fail := []; f_crash := Some 51; f_ha := true; f_hr := true; f_ob := [(1, false)]; f_rob := [] |}.
+Definition swap_and_rollback_fail : faults :=   (* swap of artifact #1 fails, the auto-rollback cannot stop the daemon *)
+  {| f_fail := [12]; f_crash := None; f_ha := true; f_hr := true; f_ob := [(1, false)]; f_rob := [] |}.
+Definition dies_after_commit : faults :=
+  {| f_fail := []; f_crash := Some 35; f_ha := true; f_hr := true; f_ob := []; f_rob := [] |}.
+Definition dies_before_manifest_saved : faults :=
+  {| f_fail := []; f_crash := Some 36; f_ha := true; f_hr := true; f_ob := []; f_rob := [] |}.
+Definition interrupted_then_forced : list op :=
+  [OpApply (tar_ex 2 PrevNone) no_opts swap_and_rollback_fail;    (* leaves artifact 0 new, artifact 1 old *)
+   OpApply (tar_ex 2 PrevNone) force health_fails].               (* ForceRetry, health fails, auto-rollback "succeeds" *)
 
-(* today: a failed apply whose auto-rollback "succeeded" has lost the setuid bit of artifact 0 *)
+(* /repo at 88f69f7+f4d379f: the ForceRetry apply re-snapshots the mixed tree; its auto-rollback reports
+   success with artifact 0 still at the new bytes — a mixture against the baseline (tree before attempt 1) *)
+Theorem C18_forceretry_rebase_refuted :
+  exists w' m, last (run head1 (init_world 1 fs_ex) interrupted_then_forced) (init_world 1 fs_ex, (RErr, MonNone))
+               = (w', (RErrRolledBack, m)) /\ m = MonMixed /\ ofile_eqb (fs w' 0) (Some (Reg 20 493)) = true.
+Proof. do 2 eexists. split; [vm_compute; reflexivity|]. split; vm_compute; reflexivity. Qed.
+Print Assumptions C18_forceretry_rebase_refuted.
+
+(* /repo at 88f69f7+f4d379f: the process dies after Snapshot() and before saveCurrentManifest; Rollback accepts
+   the journal at "started", finds no saved manifest and deletes current-manifest.yaml (cur = NOVER), reporting success *)
+Theorem C18_rollback_without_snapshot_refuted :
+  exists w1 w', apply head1 (tar_ex 2 PrevNone) no_opts dies_before_manifest_saved (init_world 1 fs_ex) = (w1, RCrash) /\
+                rollback_flow head1 no_faults w1 = (w', RbOk) /\ cur w' = NOVER /\ ver_restored w' = MonMixed.
+Proof. do 2 eexists. split; [vm_compute; reflexivity|]. split; [vm_compute; reflexivity|]. split; vm_compute; reflexivity. Qed.
+Print Assumptions C18_rollback_without_snapshot_refuted.
+
+(* before 88f69f7: a failed apply whose auto-rollback "succeeded" has lost the setuid bit of artifact 0 *)
 Theorem C18_failed_apply_restored_refuted :
-  exists T Q F w w', apply defective T Q F w = (w', RErrRolledBack) /\
-  exists a, In a (t_arts T) /\ fs w' (a_path a) <> fs w (a_path a).
-Proof.
-  exists (tar_ex 2 PrevNone), no_opts, health_fails, (init_world 1 fs_ex).
-  eexists. split; [vm_compute; reflexivity|].
-  exists {| a_path := 0; a_content := 20; a_mode := MOk 493; a_vpp := false |}%N.
-  split; [left; reflexivity|vm_compute; discriminate].
-Qed.
+  exists w', apply defective (tar_ex 2 PrevNone) no_opts health_fails (init_world 1 fs_ex) = (w', RErrRolledBack) /\
+             fs w' 0 <> fs_ex 0.
+Proof. eexists. split; [vm_compute; reflexivity|vm_compute; discriminate]. Qed.
 Print Assumptions C18_failed_apply_restored_refuted.
 
-(* today: upgrade 1 -> 2, roll back (artifacts are those of version 1 again), and a tarball that
-   declares predecessor 2 is admitted and installed, while [g_inst] (the version the artifacts
-   belong to) is 1 *)
+(* before f4d379f: upgrade 1 -> 2, roll back, and a tarball that declares predecessor 2 is installed on the
+   version-1 tree *)
 Theorem C18_wrong_predecessor_refuted :
-  exists ops w' r m, last (run defective (init_world 1 fs_ex) ops) (init_world 1 fs_ex, (RErr, MonNone)) = (w', (r, m)) /\
-  r = ROk /\ g_inst (fst (nth 1 (run defective (init_world 1 fs_ex) ops) (init_world 1 fs_ex, (RErr, MonNone)))) = 1%N /\
-  cur (fst (nth 1 (run defective (init_world 1 fs_ex) ops) (init_world 1 fs_ex, (RErr, MonNone)))) = 2%N.
-Proof.
-  exists [OpApply (tar_ex 2 PrevNone) no_opts no_faults; OpRollback no_faults;
-          OpApply (tar_ex 3 (Prev 2 true)) no_opts no_faults].
-  eexists. exists ROk. eexists. split; [vm_compute; reflexivity|]. vm_compute. auto.
-Qed.
+  exists w', exec defective (init_world 1 fs_ex)
+               [OpApply (tar_ex 2 PrevNone) no_opts no_faults; OpRollback no_faults] = w' /\
+             g_inst w' = 1 /\ cur w' = 2 /\
+             snd (apply defective (tar_ex 3 (Prev 2 true)) no_opts no_faults w') = ROk.
+Proof. eexists. split; [reflexivity|]. split; [vm_compute; reflexivity|]. split; vm_compute; reflexivity. Qed.
 Print Assumptions C18_wrong_predecessor_refuted.
 
 (* --- non-vacuity ----------------------------------------------------------------------- *)
 Example C18_nonvacuous_success :
-  exists w', apply repaired (tar_ex 2 (Prev 1 true)) no_opts no_faults (init_world 1 fs_ex) = (w', ROk).
+  exists w', apply repaired (tar_ex 2 (Prev 1 true)) no_opts no_faults (reach 1 fs_ex []) = (w', ROk).
 Proof. eexists. vm_compute. reflexivity. Qed.
 Print Assumptions C18_nonvacuous_success.
 
 Example C18_nonvacuous_auto_rollback :
-  exists w', apply repaired (tar_ex 2 PrevNone) no_opts health_fails (init_world 1 fs_ex) = (w', RErrRolledBack) /\
-  ofile_eqb (fs w' 0%N) (Some (Reg 10 2541)) = true.
+  exists w', apply repaired (tar_ex 2 PrevNone) no_opts health_fails (reach 1 fs_ex []) = (w', RErrRolledBack) /\
+  ofile_eqb (fs w' 0) (Some (Reg 10 2541)) = true.
 Proof. eexists. vm_compute. split; reflexivity. Qed.
 Print Assumptions C18_nonvacuous_auto_rollback.
 
-(* process dies with artifact 0 swapped and artifact 1 not; a later rollback reports success *)
-Example C18_nonvacuous_crash_rollback :
-  exists w1 b gi w' m,
-    apply repaired (tar_ex 2 PrevNone) no_opts dies_mid_swap (init_world 1 fs_ex) = (w1, RCrash) /\
-    admits (tar_ex 2 PrevNone) no_opts (init_world 1 fs_ex) = true /\
-    g_base w1 = Some (true, b, gi) /\
-    ofile_eqb (fs w1 0%N) (Some (Reg 20 493)) = true /\ ofile_eqb (fs w1 1%N) (Some (Reg 11 420)) = true /\
-    rb_only [OpRollback no_faults] /\
-    In (w', (RRbOk, m)) (run repaired w1 [OpRollback no_faults]).
+(* the ForceRetry scenario in the repaired model: the kept snapshot brings back the tree before attempt 1,
+   and C18_rollback_can_succeed's hypotheses hold in the interrupted state *)
+Example C18_nonvacuous_forceretry :
+  exists w1 base gi w' m,
+    reach 1 fs_ex [OpApply (tar_ex 2 PrevNone) no_opts swap_and_rollback_fail] = w1 /\
+    g_base w1 = Some (true, base, gi) /\ resume w1 = true /\
+    ofile_eqb (fs w1 0) (Some (Reg 20 493)) = true /\ ofile_eqb (fs w1 1) (Some (Reg 11 420)) = true /\
+    (forall p f0, In (p, f0) base -> fs w1 p <> Some Dir) /\
+    step repaired w1 (OpApply (tar_ex 2 PrevNone) force health_fails) = (w', (RErrRolledBack, m)) /\ m = MonOk /\
+    ofile_eqb (fs w' 0) (Some (Reg 10 2541)) = true /\ ofile_eqb (fs w' 1) (Some (Reg 11 420)) = true /\ cur w' = 1.
 Proof.
-  do 5 eexists. split; [vm_compute; reflexivity|]. split; [vm_compute; reflexivity|].
-  split; [vm_compute; reflexivity|]. split; [vm_compute; reflexivity|]. split; [vm_compute; reflexivity|].
-  split; [repeat constructor|]. vm_compute. left. reflexivity.
+  do 5 eexists. split; [reflexivity|]. split; [vm_compute; reflexivity|]. split; [vm_compute; reflexivity|].
+  split; [vm_compute; reflexivity|]. split; [vm_compute; reflexivity|].
+  split; [intros p f0 [H|[H|[]]]; inversion H; subst; vm_compute; discriminate|].
+  split; [vm_compute; reflexivity|]. split; [reflexivity|]. split; [vm_compute; reflexivity|].
+  split; vm_compute; reflexivity.
 Qed.
-Print Assumptions C18_nonvacuous_crash_rollback.
+Print Assumptions C18_nonvacuous_forceretry.
+
+(* death between WriteCurrentManifest and the "completed" phase write, then rollback *)
+Example C18_nonvacuous_death_after_commit :
+  exists w1 w' m,
+    apply repaired (tar_ex 2 PrevNone) no_opts dies_after_commit (reach 1 fs_ex []) = (w1, RCrash) /\ cur w1 = 2 /\
+    option_map j_phase (jr w1) = Some PDaemonStarted /\
+    step repaired w1 (OpRollback no_faults) = (w', (RRbOk, m)) /\ cur w' = 1 /\
+    ofile_eqb (fs w' 0) (Some (Reg 10 2541)) = true.
+Proof.
+  do 3 eexists. split; [vm_compute; reflexivity|]. split; [vm_compute; reflexivity|]. split; [vm_compute; reflexivity|].
+  split; [vm_compute; reflexivity|]. split; vm_compute; reflexivity.
+Qed.
+Print Assumptions C18_nonvacuous_death_after_commit.
+
+(* death between Snapshot and saveCurrentManifest: the repaired Rollback refuses, nothing changes; a
+   ForceRetry then upgrades normally *)
+Example C18_nonvacuous_death_before_manifest_saved :
+  exists w1 w2,
+    apply repaired (tar_ex 2 PrevNone) no_opts dies_before_manifest_saved (reach 1 fs_ex []) = (w1, RCrash) /\
+    rollback_flow repaired no_faults w1 = (w1, RbErr) /\ cur w1 = 1 /\
+    apply repaired (tar_ex 2 PrevNone) force no_faults w1 = (w2, ROk).
+Proof.
+  do 2 eexists. split; [vm_compute; reflexivity|]. split; [vm_compute; reflexivity|].
+  split; vm_compute; reflexivity.
+Qed.
+Print Assumptions C18_nonvacuous_death_before_manifest_saved.
 
 Example C18_nonvacuous_inadmissible :
-  inadmissible (tar_ex 3 (Prev 2 true)) (init_world 1 fs_ex).
-Proof. right. right. right. exists 2%N, true. split; [reflexivity|right; discriminate]. Qed.
+  inadmissible (tar_ex 3 (Prev 2 true)) (init_world 1 fs_ex) /\
+  inadmissible {| t_to := 2; t_prev := PrevNone; t_sig_ok := false; t_members_ok := true; t_digest_ok := true;
+                  t_hook_ok := true; t_arts := arts_ex |} (init_world 1 fs_ex) /\
+  inadmissible {| t_to := 2; t_prev := PrevNone; t_sig_ok := true; t_members_ok := false; t_digest_ok := true;
+                  t_hook_ok := true; t_arts := arts_ex |} (init_world 1 fs_ex) /\
+  inadmissible {| t_to := 2; t_prev := PrevNone; t_sig_ok := true; t_members_ok := true; t_digest_ok := false;
+                  t_hook_ok := true; t_arts := arts_ex |} (init_world 1 fs_ex).
+Proof.
+  split; [right; right; right; exists 2, true; split; [reflexivity|right; discriminate]|].
+  split; [left; reflexivity|]. split; [right; right; left; reflexivity|right; left; reflexivity].
+Qed.
 Print Assumptions C18_nonvacuous_inadmissible.
 
-(* --- member names ----------------------------------------------------------------------- *)
-(* a member name accepted by safeTarEntryPath has no ".." component left after the lexical
-   Clean, so joining it to the staging directory stays below the staging directory *)
-Theorem C18_safe_entry :
-  forall name cl, safe_entry name = Some cl -> forall c, In c cl -> is_dotdot c = false.
-Proof. exact safe_entry_no_dotdot. Qed.
-Print Assumptions C18_safe_entry.
+(* symlinked install paths: links resolve as before after the auto-rollback, the outside file was never written *)
+Definition fs_links : path -> option file :=
+  fun p => if N.eqb p 0 then Some (Sym 100) else if N.eqb p 1 then Some (Sym 101)
+           else if N.eqb p 3 then Some (Reg 13 420) else if N.eqb p 100 then Some (Reg 50 420)
+           else if N.eqb p 101 then Some (Sym 3) else None.
+Example C18_nonvacuous_resolved :
+  exists w',
+    apply repaired (tar_ex 2 PrevNone) no_opts health_fails (reach 1 fs_links []) = (w', RErrRolledBack) /\
+    resolve (fs w') 0 16 = Some 50 /\ resolve (fs w') 1 16 = Some 13 /\
+    ofile_eqb (fs w' 0) (Some (Sym 100)) = true /\ ofile_eqb (fs w' 100) (Some (Reg 50 420)) = true /\
+    mon_resolved w' = MonOk.
+Proof.
+  eexists. split; [vm_compute; reflexivity|]. split; [vm_compute; reflexivity|]. split; [vm_compute; reflexivity|].
+  split; [vm_compute; reflexivity|]. split; vm_compute; reflexivity.
+Qed.
+Print Assumptions C18_nonvacuous_resolved.
 
 (* "../x", "/abs", "a/../../b", "..\x" are rejected; "a/./b//c" is accepted as a/b/c *)
 Example C18_safe_entry_nonvacuous :
@@ -157,124 +283,3 @@ Example C18_safe_entry_nonvacuous :
   safe_entry [97;47;46;47;98;47;47;99] = Some [[97];[98];[99]].
 Proof. vm_compute. repeat split. Qed.
 Print Assumptions C18_safe_entry_nonvacuous.
-
-(* --- current-manifest names the installed version ------------------------------------- *)
-(* Ghost [g_inst] = the version the installed artifacts belong to: set to the tarball's version at the
-   commit step (all artifacts new), set back to the version current-manifest named when the snapshot
-   was taken at the moment a restore from that snapshot completes (all artifacts old).
-   In every state reachable by any history (applies with any fault set / death at any labelled point
-   incl. between WriteCurrentManifest and the "completed" phase write, rollbacks, operator edits,
-   obstacle removal, ForceRetry) current-manifest names that version. *)
-Theorem C18_current_manifest_names_installed_version :
-  forall c f ops, let w := exec repaired (init_world c f) ops in cur w = g_inst w.
-Proof. exact reachable_version. Qed.
-Print Assumptions C18_current_manifest_names_installed_version.
-
-(* Every operation from a reachable state that reports success is consistent in both respects:
-   the tree is all-new resp. the snapshotted tree ([m]), and current-manifest names the tarball's
-   version resp. the version it named when the restored tree was snapshotted ([step_ver]). *)
-Theorem C18_reported_success_is_consistent :
-  forall c f ops o w' r m,
-  step repaired (exec repaired (init_world c f) ops) o = (w', (r, m)) ->
-  m <> MonMixed /\ step_ver o w' r <> MonMixed.
-Proof. exact reachable_consistent. Qed.
-Print Assumptions C18_reported_success_is_consistent.
-
-(* In every reachable state a tarball whose declared predecessor is not the installed version
-   changes nothing at all. *)
-Theorem C18_wrong_predecessor_never_modifies :
-  forall c f ops T Q F pv wf, let w := exec repaired (init_world c f) ops in
-  t_prev T = Prev pv wf -> pv <> g_inst w -> apply repaired T Q F w = (w, RErr).
-Proof. exact wrong_predecessor_never_modifies. Qed.
-Print Assumptions C18_wrong_predecessor_never_modifies.
-
-(* C18_rollback_restores from a reachable state, with the version: tree and current-manifest are
-   both back to what they were before the apply. *)
-Theorem C18_rollback_restores_tree_and_version :
-  forall c f ops0 T Q F w1 r1 b gi, let w := exec repaired (init_world c f) ops0 in
-  apply repaired T Q F w = (w1, r1) -> admits T Q w = true ->
-  g_base w1 = Some (true, b, gi) ->
-  forall ops, rb_only ops ->
-  forall w' r m, In (w', (r, m)) (run repaired w1 ops) -> r = RRbOk ->
-  (forall a, In a (t_arts T) -> fs w' (a_path a) = fs w (a_path a)) /\ cur w' = cur w /\ cur w' = g_inst w.
-Proof. exact reachable_crash_then_rollback. Qed.
-Print Assumptions C18_rollback_restores_tree_and_version.
-
-(* non-vacuity of the new crash point: the process dies after WriteCurrentManifest and before the
-   "completed" phase write (all artifacts new, current-manifest 2, journal daemon_started);
-   a rollback then reports success with the old tree and current-manifest 1 *)
-Definition dies_after_commit : faults :=
-  {| f_fail := []; f_crash := Some 35; f_ha := true; f_hr := true; f_ob := []; f_rob := [] |}.
-Example C18_nonvacuous_death_after_commit :
-  exists w1 b gi w' m,
-    apply repaired (tar_ex 2 PrevNone) no_opts dies_after_commit (init_world 1 fs_ex) = (w1, RCrash) /\
-    g_base w1 = Some (true, b, gi) /\ cur w1 = 2 /\
-    option_map j_phase (jr w1) = Some PDaemonStarted /\
-    ofile_eqb (fs w1 0) (Some (Reg 20 493)) = true /\ ofile_eqb (fs w1 1) (Some (Reg 21 420)) = true /\
-    In (w', (RRbOk, m)) (run repaired w1 [OpRollback no_faults]) /\ cur w' = 1 /\
-    ofile_eqb (fs w' 0) (Some (Reg 10 2541)) = true.
-Proof.
-  do 5 eexists. split; [vm_compute; reflexivity|]. split; [vm_compute; reflexivity|].
-  split; [vm_compute; reflexivity|]. split; [vm_compute; reflexivity|].
-  split; [vm_compute; reflexivity|]. split; [vm_compute; reflexivity|].
-  split; [vm_compute; left; reflexivity|]. split; vm_compute; reflexivity.
-Qed.
-Print Assumptions C18_nonvacuous_death_after_commit.
-
-(* non-vacuity: upgrade 1 -> 2 completes, rollback succeeds, a tarball with predecessor 2 is refused *)
-Example C18_wrong_predecessor_nonvacuous :
-  exists w w',
-    In (w, (ROk, MonOk)) (run repaired (init_world 1 fs_ex) [OpApply (tar_ex 2 PrevNone) no_opts no_faults]) /\
-    rollback_flow repaired no_faults w = (w', RbOk) /\ cur w' = 1 /\
-    fst (apply repaired (tar_ex 3 (Prev 2 true)) no_opts no_faults w') = w'.
-Proof.
-  do 2 eexists. split; [vm_compute; left; reflexivity|]. split; [vm_compute; reflexivity|].
-  split; vm_compute; reflexivity.
-Qed.
-Print Assumptions C18_wrong_predecessor_nonvacuous.
-
-(* --- resolved content (symlinked install paths) ---------------------------------------- *)
-(* The tree has symlinks (target = node id: artifact path, file outside the artifact directories, or
-   nothing).  [resolve] = the bytes read THROUGH a path.
-   After an admitted apply from a reachable state whose snapshot completed, and any sequence of rollback
-   attempts / obstacle removals, a rollback that reports success has put back the WHOLE tree — not just
-   kind / mode / link target of the artifact paths: every node is as before, so every path resolves to
-   the bytes it resolved to before the upgrade. *)
-Theorem C18_rollback_restores_whole_tree :
-  forall c f ops0 T Q F w1 r1 b gi, let w := exec repaired (init_world c f) ops0 in
-  apply repaired T Q F w = (w1, r1) -> admits T Q w = true ->
-  g_base w1 = Some (true, b, gi) ->
-  forall ops, rb_only ops ->
-  forall w' r m, In (w', (r, m)) (run repaired w1 ops) -> r = RRbOk ->
-  (forall q, fs w' q = fs w q) /\ (forall p n, resolve (fs w') p n = resolve (fs w) p n).
-Proof. exact crash_then_rollback_resolved. Qed.
-Print Assumptions C18_rollback_restores_whole_tree.
-
-(* Over all histories: every reported rollback / auto-rollback, as long as no operator edit happened since
-   the upgrade began, leaves every artifact path of that upgrade resolving to its pre-upgrade bytes. *)
-Theorem C18_reported_rollback_resolves_as_before :
-  forall c f ops o w' r m,
-  step repaired (exec repaired (init_world c f) ops) o = (w', (r, m)) -> step_res o w' r <> MonMixed.
-Proof. exact reachable_resolved. Qed.
-Print Assumptions C18_reported_rollback_resolves_as_before.
-
-(* non-vacuity: artifact 0 is a symlink to file 100 outside the artifact directories (bytes 50), artifact 1
-   a symlink chain 1 -> 101 -> 3 (bytes 13); the upgrade replaces both links, health fails, the auto-rollback
-   reports success: both are links again and resolve to 50 and 13, file 100 was never written *)
-Definition fs_links : path -> option file :=
-  fun p => if N.eqb p 0 then Some (Sym 100) else if N.eqb p 1 then Some (Sym 101)
-           else if N.eqb p 3 then Some (Reg 13 420) else if N.eqb p 100 then Some (Reg 50 420)
-           else if N.eqb p 101 then Some (Sym 3) else None.
-Example C18_nonvacuous_resolved :
-  exists w1 w',
-    fst (apply repaired (tar_ex 2 PrevNone) no_opts dies_mid_swap (init_world 1 fs_links)) = w1 /\
-    resolve (fs w1) 0 16 = Some 20 /\ resolve (fs w1) 1 16 = Some 13 /\
-    apply repaired (tar_ex 2 PrevNone) no_opts health_fails (init_world 1 fs_links) = (w', RErrRolledBack) /\
-    resolve (fs w') 0 16 = Some 50 /\ resolve (fs w') 1 16 = Some 13 /\
-    ofile_eqb (fs w' 0) (Some (Sym 100)) = true /\ ofile_eqb (fs w' 100) (Some (Reg 50 420)) = true /\
-    mon_resolved w' = MonOk.
-Proof.
-  do 2 eexists. split; [reflexivity|]. split; [vm_compute; reflexivity|]. split; [vm_compute; reflexivity|].
-  split; [vm_compute; reflexivity|]. repeat split; vm_compute; reflexivity.
-Qed.
-Print Assumptions C18_nonvacuous_resolved.
